@@ -438,7 +438,7 @@ def rand_mask32(r):
 def rand_cluster(r):
     k = r.below(8)
     if k < 5: return r.below(8)
-    if k == 5: return r.choice([U32, U32 - 1, U32 - 2])
+    if k == 5: return r.choice([U32, U32 - 1, U32 - 2, 1 << 31, (1 << 31) - 1, (1 << 31) + 1, 0xFFFF, 0x10000])     # the u32 edges of C01's extreme-clusters
     return r.below(1 << 32)
 
 
